@@ -15,8 +15,8 @@ from . import overlay as ov
 from . import kani as kk
 
 VERIF = ov.VERIF
-EVIDENCE_DIR = os.path.join(VERIF, "evidence")
-REPLAY_DIR = os.path.join(VERIF, "replay")
+EVIDENCE_DIR = os.path.join(ov.BUILD_DIR, "evidence") if ov.SANDBOX else os.path.join(VERIF, "evidence")
+REPLAY_DIR = os.path.join(ov.BUILD_DIR, "replay") if ov.SANDBOX else os.path.join(VERIF, "replay")
 LOG_DIR = os.path.join(ov.BUILD_DIR, "logs")
 
 
@@ -223,6 +223,9 @@ def run_kani_group(prop_id, tier, target, modules, harnesses, support=(), elide_
         hs = [h for h in harnesses if any(x in h.name for x in subs)]
     if not hs:
         return []
+    # VERIF_SEED only permutes the order in which harnesses are handed to Kani (no verdict depends on it)
+    import random
+    random.Random(seed_from_env()).shuffle(hs)
     if harness_timeout is None:
         harness_timeout = 150 if tier == "quick" else 1200
     obls = []
